@@ -435,6 +435,20 @@ def probe_nested(ctx):
                 leaf.store(k, ("data of " + k).encode(), {})
             if trial % 2:
                 parent.mount(prefixes[-1], leaf)      # the same store mounted again at the same key (a set-up function called twice)
+            # exclusivity through the levels: a key below an inner mount point is never served by a store further out (a key the inner
+            # composite has no route for raises - it is not handed to an outer default store)
+            before = sorted(root.default_store.keys())
+            for i in range(depth - 1):
+                stray = "/".join(prefixes[:i + 1]) + "/zz-unrouted.txt"
+                try:
+                    root.store(stray, b"stray", {})
+                except Exception:
+                    pass
+                if sorted(root.default_store.keys()) != before:
+                    ctx.violation("mt:nested:exclusive:depth=%d" % depth,
+                                  "stores nested at %r (outermost first): store(%r) - a key below the mount point %r - changed the OUTERMOST default store (keys %r)" % (
+                                      prefixes, stray, "/".join(prefixes[:i + 1]), sorted(root.default_store.keys())), dict(kind="nested", prefixes=prefixes, key=stray))
+                    break
             # the key exactly AT each inner mount point is a directory of the composite that lists the next mount
             for i in range(depth - 1):
                 at = "/".join(prefixes[:i + 1])
